@@ -29,6 +29,7 @@ def t_fmt(chk, ix):
     rules_formatter.check_display_tables(chk, ix)
     rules_formatter.check_step_queues(chk, ix)
     rules_formatter.check_stream_opener_close(chk, ix)
+    rules_formatter.check_json_argument_values(chk, ix)
     # the table the plain / pretty formatters print is the table of the model (cells with pipes escaped): shared with C04
     from .. import rules_parser
     rules_parser.check_table_render_roundtrip(chk, ix)
@@ -40,5 +41,5 @@ def t_fmt(chk, ix):
 def run(chk, ix, tier):
     run_parallel(chk, [(t_fmt, ()), (T.t_step, (("F1",),)), (T.t_scenario, (("F2",),)), (T.t_run_model, (("F4",),))]
                  + [(T.t_container, (("F3",), (w,))) for w in ("Feature", "Rule")])
-    for r, n in (("F1", 8), ("F2", 1), ("F3", 2), ("F4", 1), ("F5", 2), ("F6", 6), ("F7", 2), ("F8", 3), ("F10", 7), ("F11", 8), ("F12", 2), ("P8", 4), ("M12", 5)):
+    for r, n in (("F1", 8), ("F2", 1), ("F3", 2), ("F4", 1), ("F5", 2), ("F6", 6), ("F7", 2), ("F8", 3), ("F10", 7), ("F11", 8), ("F12", 2), ("P8", 4), ("M12", 5), ("F13", 7)):
         chk.require_instances(r, n)
